@@ -193,6 +193,14 @@ FINDINGS = [
          what="buttons were sampled, edge-checked and their handlers called one after the other, the sample being published after the handler: is_pressed() inside a handler returned the previous pass's level (own button, and every button polled later)", cases=[]),
     dict(id="KF-C19-motor-nan", property="C19", status="fixed", commit="ec196d8",
          what="DCMotor.set_speed(float('nan')) stored NaN as the speed (|speed| <= 1 violated; mode 'drive' with a NaN applied speed)", cases=[]),
+    dict(id="KF-C01-branch-variable-reset", property="C01", status="fixed", commit="336f645",
+         what="a variable first assigned in a branch inside a loop was reset to its default on every iteration (for i in range(3): if i == 0: w = 5 ... write(w) printed 5, 0, 0)",
+         cases=[prog("C01", P + AB + "for i in range(3):\n    if i == 0:\n        w = a + 1\n    mon.write(w)\nk = 0\nwhile k < 3:\n    k += 1\n    if k == 1:\n        v = b\n    mon.write(v)\n", RUN_AB, "first assignment in an if-branch inside for / while", space="K")]),
+    dict(id="KF-C01-helper-local-writes-global", property="C01", status="fixed", commit="3c0ef0f",
+         what="an assignment inside a helper without 'global' overwrote the sketch-level variable of the same name",
+         cases=[prog("C01", P + "def shadow(v):\n    x = v + 1\n    y = x * 2\n    return y\n" + AB + "x = a\ny = b\nmon.write(shadow(a))\nmon.write(x)\nmon.write(y)\n", RUN_AB, "helper assigns x, y without global", space="F")]),
+    dict(id="KF-C09-string-negative-index", property="C09", status="fixed", commit="362df92",
+         what="s[-1] on a string was emitted as s[(-1)] (read in front of the buffer); ch = s[0] was typed int", cases=[]),
     dict(id="KF-C14-lcd-rebind", property="C14", status="open", commit=None,
          what="one name bound first to a parallel LCD and later to an I2C LCD (or the reverse): both libraries are requested, but the emitter keeps only the first display (one header, one object); outside the documented style, like KF-C05-rebind",
          cases=c14_rebind_cases()),
